@@ -8,12 +8,15 @@
 package c03
 
 import (
+	"bufio"
 	"bytes"
 	"encoding/json"
 	"fmt"
 	"io"
+	"log"
 	"math"
 	"mime/multipart"
+	"net"
 	"net/http"
 	"net/http/httptest"
 	"net/url"
@@ -71,6 +74,7 @@ type Pair struct {
 type Req struct {
 	Pairs []Pair
 	Seg   string // path location: the text of the path segment
+	Wire  bool   // send the request as raw bytes over a TCP connection to a real net/http server (query, header, path)
 }
 
 func (v Validation) JSON() M {
@@ -88,7 +92,7 @@ func (r Req) JSON() M {
 	for _, p := range r.Pairs {
 		ps = append(ps, M{"k": trace.B(p.K), "v": trace.B(p.V), "bare": p.Bare, "file": p.File, "fn": trace.B(p.FN)})
 	}
-	return M{"pairs": ps, "seg": trace.B(r.Seg)}
+	return M{"pairs": ps, "seg": trace.B(r.Seg), "wire": r.Wire}
 }
 
 func bindCase(d Decl, reqs []Req) M {
@@ -119,7 +123,7 @@ func declFrom(v any) Decl {
 
 func reqFrom(v any) Req {
 	m := drv.Map(v)
-	r := Req{Seg: trace.Str(m["seg"])}
+	r := Req{Seg: trace.Str(m["seg"]), Wire: drv.Bool(m["wire"])}
 	for _, p := range drv.List(m["pairs"]) {
 		pm := drv.Map(p)
 		r.Pairs = append(r.Pairs, Pair{K: trace.Str(pm["k"]), V: trace.Str(pm["v"]), Bare: drv.Bool(pm["bare"]), File: drv.Bool(pm["file"]), FN: trace.Str(pm["fn"])})
@@ -357,6 +361,58 @@ func buildRequest(d Decl, rq Req) (*http.Request, error) {
 	return nil, fmt.Errorf("unknown location %q", d.In)
 }
 
+// ---- a real server for the cases sent "on the wire" -------------------------------------------
+
+var (
+	wireSrv *httptest.Server
+	wireCur http.Handler
+)
+
+func wireTarget(d Decl, rq Req) (target string, headers []string) {
+	switch d.In {
+	case "query":
+		return "/p?" + encodePairs(rq.Pairs), nil
+	case "path":
+		return "/p/" + url.PathEscape(rq.Seg) + "/e", nil
+	}
+	for _, p := range rq.Pairs {
+		headers = append(headers, p.K+": "+p.V) // the field name exactly as the client spells it
+	}
+	return "/p", headers
+}
+
+// wireRoundTrip writes the request bytes to a TCP connection of a real net/http server and reads the response.
+func wireRoundTrip(h http.Handler, d Decl, rq Req) (status int, body []byte, err error) {
+	if wireSrv == nil {
+		wireSrv = httptest.NewUnstartedServer(http.HandlerFunc(func(w http.ResponseWriter, r *http.Request) { wireCur.ServeHTTP(w, r) }))
+		wireSrv.Config.ErrorLog = log.New(io.Discard, "", 0)
+		wireSrv.Start()
+	}
+	wireCur = h
+	conn, err := net.Dial("tcp", wireSrv.Listener.Addr().String())
+	if err != nil {
+		return 0, nil, err
+	}
+	defer conn.Close()
+	target, headers := wireTarget(d, rq)
+	var b strings.Builder
+	b.WriteString("GET " + target + " HTTP/1.1\r\nHost: c03.test\r\n")
+	for _, hl := range headers {
+		b.WriteString(hl + "\r\n")
+	}
+	b.WriteString("Connection: close\r\n\r\n")
+	if _, err = conn.Write([]byte(b.String())); err != nil {
+		return 0, nil, err
+	}
+	resp, err := http.ReadResponse(bufio.NewReader(conn), nil)
+	if err != nil {
+		return 0, nil, err
+	}
+	defer resp.Body.Close()
+	body, _ = io.ReadAll(resp.Body)
+	return resp.StatusCode, body, nil
+}
+
 // ---- observation ---------------------------------------------------------------------------
 
 func emptyVal(k string) M {
@@ -477,20 +533,46 @@ func obsValue(x interface{}) (M, string) {
 	return v, dyn
 }
 
-func serve(a *apiInst, d Decl, r *http.Request) (ev M) {
+func serve(a *apiInst, d Decl, rq Req) (ev M) {
 	*a.ran = false
 	*a.got = nil
-	rec := httptest.NewRecorder()
 	ev = M{"status": 0, "ran": false, "panic": false, "has": false, "val": emptyVal("none"), "dyn": "", "msg": []int{}}
-	defer func() {
-		if p := recover(); p != nil {
+	var status int
+	var body []byte
+	if rq.Wire && d.In != "formData" {
+		var err error
+		status, body, err = wireRoundTrip(a.handler, d, rq)
+		if err != nil {
+			// net/http recovers a panicking handler and drops the connection: no response
 			ev["panic"] = true
 			ev["ran"] = *a.ran
-			ev["msg"] = trace.B(clip(fmt.Sprint(p)))
+			ev["msg"] = trace.B(clip("no response: " + err.Error()))
+			return ev
 		}
-	}()
-	a.handler.ServeHTTP(rec, r)
-	ev["status"] = rec.Code
+	} else {
+		r, err := buildRequest(d, rq)
+		if err != nil {
+			panic(fmt.Sprintf("c03: cannot render request: %v", err))
+		}
+		rec := httptest.NewRecorder()
+		panicked := func() (p bool) {
+			defer func() {
+				if x := recover(); x != nil {
+					p = true
+					ev["msg"] = trace.B(clip(fmt.Sprint(x)))
+				}
+			}()
+			a.handler.ServeHTTP(rec, r)
+			return false
+		}()
+		if panicked {
+			ev["panic"] = true
+			ev["ran"] = *a.ran
+			return ev
+		}
+		status, body = rec.Code, rec.Body.Bytes()
+	}
+	ev["status"] = status
 	ev["ran"] = *a.ran
 	if *a.ran && *a.got != nil {
 		if x, ok := (*a.got)[d.Name]; ok {
@@ -498,14 +580,14 @@ func serve(a *apiInst, d Decl, r *http.Request) (ev M) {
 			ev["val"], ev["dyn"] = obsValue(x)
 		}
 	}
-	if rec.Code != http.StatusOK {
-		var body struct {
+	if status != http.StatusOK {
+		var jb struct {
 			Message string `json:"message"`
 		}
-		if json.Unmarshal(rec.Body.Bytes(), &body) == nil {
-			ev["msg"] = trace.B(clip(body.Message))
+		if json.Unmarshal(body, &jb) == nil {
+			ev["msg"] = trace.B(clip(jb.Message))
 		} else {
-			ev["msg"] = trace.B(clip(rec.Body.String()))
+			ev["msg"] = trace.B(clip(string(body)))
 		}
 	}
 	return ev
@@ -547,11 +629,7 @@ func execute(c *drv.Ctx, desc M) bool {
 	}
 	for i, rv := range drv.List(desc["reqs"]) {
 		rq := reqFrom(rv)
-		r, err := buildRequest(d, rq)
-		if err != nil {
-			panic(fmt.Sprintf("c03: cannot render request: %v", err))
-		}
-		ev := serve(a, d, r)
+		ev := serve(a, d, rq)
 		ev["i"] = i + 1
 		c.W.Event("bind", ev)
 		if drv.Bool(ev["ran"]) || drv.Int(ev["status"]) == 422 {
